@@ -322,6 +322,49 @@ func runC14(c *Ctx) {
 	}
 	c.Min("C14.X1", 8)
 
+	// ---- K3 format strings in the patch package are constants: caller-supplied JSON never takes the place of a format
+	// (a '%' in a service endpoint would be read as a verb)
+	{
+		n, bad := 0, 0
+		var where []string
+		for _, f := range c.Funcs {
+			if pkgPathOf(f) != modPkg+"patch" {
+				continue
+			}
+			forEachInstr(f, func(in ssa.Instruction) {
+				cl, ok := in.(*ssa.Call)
+				if !ok || cl.Call.StaticCallee() == nil || len(cl.Call.Args) < 1 {
+					return
+				}
+				switch cl.Call.StaticCallee().String() {
+				case "fmt.Sprintf", "fmt.Errorf", "fmt.Fprintf", "fmt.Printf":
+				default:
+					return
+				}
+				fa := cl.Call.Args[0]
+				if cl.Call.StaticCallee().String() == "fmt.Fprintf" && len(cl.Call.Args) > 1 {
+					fa = cl.Call.Args[1]
+				}
+				n++
+				if _, isK := fa.(*ssa.Const); !isK {
+					bad++
+					where = append(where, short(f.String())+" at "+c.pos(cl.Pos())+": "+c.Path(fa, nil))
+				}
+			})
+		}
+		c.Check("C14.K3", "constant-format-strings", bad == 0 && n >= 5, 0, fmt.Sprintf("%d formatting calls in pkg/patch, %d with a format that is not a constant %v", n, bad, where))
+	}
+	c.Min("C14.K3", 1)
+	// the validator's duplicate test for also-known-as URIs compares the URI's own text (C13.U2): a valid document's list
+	// is not refused as containing duplicates
+	if sp := c.SPkg[modPkg+pPV]; sp != nil {
+		if t := sp.Type("AlsoKnownAsValidator"); t != nil {
+			if akaV := c.Method(pPV, "AlsoKnownAsValidator", "Validate"); akaV != nil {
+				c.alsoKnownAsKeyRule("C14.K3", akaV, "")
+			}
+		}
+	}
+
 	// ---- G1
 	fb := c.Fn("patch", "FromBytes")
 	ga := c.Method("patch", "Patch", "GetAction")
